@@ -763,6 +763,10 @@ mod os {
             if read_cnt == 0 {
                 Ok(())
             } else if read_cnt == 4 {
+                // exec has failed and the child is exiting.  Reap it here
+                // rather than in drop(), which doesn't wait for detached
+                // processes and would leave the failed child as a zombie.
+                self.os_wait().ok();
                 let error_code: u32 = error_buf[0] as u32
                     | (error_buf[1] as u32) << 8
                     | (error_buf[2] as u32) << 16
